@@ -78,6 +78,8 @@ pub enum WClass {
     Filler,
     Punct,
     Zero,
+    /// a token made of digits (already a numeral, not a number word)
+    Digits,
 }
 
 /// One element of a grammar-noise stream
@@ -91,7 +93,7 @@ pub struct NoiseTok {
 pub fn noise_stream(rng: &mut Rng, lex: &Lexicon, len: usize) -> Vec<NoiseTok> {
     let mut out = Vec::with_capacity(len);
     for _ in 0..len {
-        let c = rng.weighted(&[41, 8, 6, 5, 8, 16, 12, 4]);
+        let c = rng.weighted(&[41, 8, 6, 5, 8, 16, 12, 4, 3]);
         let (text, class) = match c {
             0 => (rng.pick(&lex.number_words).clone(), WClass::Number),
             1 => {
@@ -106,7 +108,8 @@ pub fn noise_stream(rng: &mut Rng, lex: &Lexicon, len: usize) -> Vec<NoiseTok> {
             4 => (rng.pick(&lex.linking).clone(), WClass::Linking),
             5 => (rng.pick(&lex.fillers).clone(), WClass::Filler),
             6 => (rng.pick_str(&PUNCT).to_string(), WClass::Punct),
-            _ => (lex.zero.to_string(), WClass::Zero),
+            7 => (lex.zero.to_string(), WClass::Zero),
+            _ => (rng.pick_str(&["2", "30", "7", "1999", "05", "١٢", "½", "3,5"]).to_string(), WClass::Digits),
         };
         out.push(NoiseTok { text, class });
     }
